@@ -33,6 +33,19 @@ def positiveFields (x : Cap) (fs : List String) : Bool := fs.all fun f => !posFa
 /-- `FreeCapacity(total=, allocated=).free` -/
 def free (total alloc : Cap) : Cap := fun f => freeOp (total f) (alloc f)
 
+/-- Python's operator methods that would change how `+ - < > ==` and their augmented / reflected / total-ordering
+forms behave if the class defined them.  `a += b` calls `__iadd__` when it exists and otherwise rebinds `a` to
+`a.__add__(b)`; `__le__`/`__ge__`/`__ne__`/`__bool__`/`__hash__` would change comparisons and truthiness. -/
+def operatorHooks : List String :=
+  ["__iadd__", "__isub__", "__imul__", "__radd__", "__rsub__", "__neg__", "__pos__", "__abs__",
+   "__le__", "__ge__", "__ne__", "__bool__", "__len__", "__hash__", "__setattr__", "__getattr__",
+   "__getattribute__", "__delattr__", "__copy__", "__deepcopy__"]
+
+/-- `x += y` / `x -= y` on a class without in-place operators: the name is rebound to a NEW value and the object
+that was bound before (the operand) keeps its value.  Result = (new binding, old object afterwards). -/
+def augAdd (x y : Cap) : Cap × Cap := (add x y, x)
+def augSub (x y : Cap) : Cap × Cap := (sub x y, x)
+
 /-- observable content: the values in field order -/
 def toList (x : Cap) : List Int := fields.map x
 
